@@ -40,6 +40,7 @@ def norm_type(t):
     t = t.replace('dyn ', 'dyn_').replace('mut ', 'mut_').replace('const ', 'const_')
     t = re.sub(r'\s+', '', t)
     t = t.replace('dyn_', 'dyn ').replace('mut_', 'mut ').replace('const_', 'const ')
+    t = t.replace('<>', '')
     return t
 
 
@@ -49,6 +50,7 @@ def norm_callee(c):
     c = strip_turbofish(c)
     c = _MODPREFIX.sub('', c)
     c = re.sub(r'\s*,\s*', ',', c)
+    c = c.replace('<>', '')
     return c.strip()
 
 
